@@ -6,9 +6,9 @@ CONSTANTS
   MCPings = {}
   MCOwed = 0
   MCSettings = 0
-  MCKinds = {"ok", "malS"}
+  MCKinds = {"ok", "connspec"}
   MCWrites = 1
-  MCPauses = 1
+  MCPauses = 0
   MCPanics = {FALSE}
 INVARIANTS NoViolation HandlerBound CtlBound StreamLimit QuiescentOK NeverHandled
 CHECK_DEADLOCK FALSE
